@@ -212,7 +212,7 @@ def clone_case(rng):
     ci, rl = dict(CLONEINFO), dict(REL)
     x = rng.random()
     if x < 0.35:
-        ci.update(obst=rng.choice(["volume", "head"]), retry=rng.random() < 0.5)     # one metadata write of the step fails
+        ci.update(obst=rng.choice(["volume", "head", "counter"]), retry=rng.random() < 0.5)     # one metadata write of the step fails
     elif x < 0.5:
         rl.update(obst="volume", retry=rng.random() < 0.5)
     ev.append(ci)
@@ -250,7 +250,7 @@ def clone_fault_cases():
     """every single failed metadata write of the clone flow, the flow stopping there or the step being repeated"""
     out = []
     pre = [W(0, 16, 1), SNAP(1, True), W(8, 8, 2), SNAP(2, False), W(0, 8, 3)]
-    for step, obst in (("cloneinfo", "volume"), ("cloneinfo", "head"), ("reload", "volume")):
+    for step, obst in (("cloneinfo", "volume"), ("cloneinfo", "counter"), ("cloneinfo", "head"), ("reload", "volume")):
         for retry in (False, True):
             ci, rl = dict(CLONEINFO), dict(REL)
             (ci if step == "cloneinfo" else rl).update(obst=obst, retry=retry)
@@ -416,7 +416,8 @@ def mev_terms(c, out):
     for e in c["ev"]:
         if e.get("obst"):
             if e["k"] == "cloneinfo":
-                terms.append("MCloneInfoFail %d %d%%N" % (0 if e["obst"] == "volume" else 1, out.get("snaprev", 0)))
+                # stage 0: a write before the counter is set fails (volume.meta, or the counter block itself); 1: the head's .meta
+                terms.append("MCloneInfoFail %d %d%%N" % (1 if e["obst"] == "head" else 0, out.get("snaprev", 0)))
             else:
                 terms.append("MReloadFail")
             if not e.get("retry"):
